@@ -241,7 +241,8 @@ class Evaluator:
             if isinstance(e.slice, ast.Slice):
                 lo = self.ev(e.slice.lower, env, eff) if e.slice.lower is not None else None
                 hi = self.ev(e.slice.upper, env, eff) if e.slice.upper is not None else None
-                if isinstance(base, str) and e.slice.step is None and all(x is None or (isinstance(x, int) and not isinstance(x, bool)) for x in (lo, hi)):
+                if isinstance(base, (str, tuple)) and not is_sym_bool(base) and e.slice.step is None and \
+                        all(x is None or (isinstance(x, int) and not isinstance(x, bool)) for x in (lo, hi)):
                     return base[lo:hi]
                 return Opq(u(e))
             idx = self.ev(e.slice, env, eff)
@@ -378,6 +379,13 @@ class Evaluator:
             return args[0]
         if ft in ('list', 'tuple', 'set', 'frozenset') and not args:
             return ()
+        if ft in ('sum', 'any', 'all') and len(args) == 1 and isinstance(args[0], tuple) and not is_sym_bool(args[0]) and all(isinstance(x, (bool, int)) for x in args[0]):
+            return {'sum': sum, 'any': any, 'all': all}[ft](args[0])
+        if ft == 'getattr' and len(args) in (2, 3) and isinstance(args[0], dict) and isinstance(args[1], str):
+            if args[1] in args[0]:
+                return args[0][args[1]]
+            if len(args) == 3:
+                return args[2]
         if ft == 'reversed' and len(args) == 1 and isinstance(args[0], tuple) and not is_sym_bool(args[0]):
             return tuple(reversed(args[0]))
         if ft == 'enumerate' and len(args) == 1 and isinstance(args[0], tuple) and not is_sym_bool(args[0]):
